@@ -307,9 +307,39 @@ MUST_REJECT = [
 ]
 
 
+FORBIDDEN_ATTRS = ['__class__', '__dict__', '__doc__', '__globals__', '__setattr__', 'format', 'format_map', 'gi_frame', 'f_back', 'co_code', 'cr_frame', 'tb_frame']
+ATTR_POSITIONS = [
+    'a.{X}', 'a.{X}()', 'a.{X}[0]', 'a.{X}.real', 'a.real.{X}', '(a).{X}', 'a[0].{X}', 'len(a).{X}',
+    "f'{{a.{X}}}'", "f'{{a.{X}!r:>4}}'", '(lambda: a.{X})', '(lambda x=a.{X}: x)', '[y := a.{X}]', 'len(a, key=a.{X})', 'a[a.{X}:]',
+    'a.{X} if a else a', 'a if a.{X} else a', 'a and a.{X}', 'a == a.{X}', 'not a.{X}', '-a.{X}', '[a.{X}]', '{{a.{X}}}', '{{a: a.{X}}}', '(a.{X},)', '*a.{X},',
+    '[x for x in a.{X}]', '[x.{X} for x in [a]]', '[x for x in [a] if x.{X}]',
+    # attribute nodes in Store context: targets of comprehensions
+    '[0 for a.{X} in [1]]', '{{0 for a.{X} in [1]}}', '{{0: 0 for a.{X} in [1]}}', 'list(0 for a.{X} in [1])', '[0 for (a.{X}, y) in [(1, 2)]]',
+    '[0 for [a.{X}, y] in [(1, 2)]]', '[0 for (*a.{X},) in [(1,)]]', '[0 for a[0].{X} in [1]]', '[0 for y in [1] for a.{X} in [1]]',
+]
+
+
 def must_reject(rc):
     install()
     from tatsu.util.safeeval import is_eval_safe, safe_builtins
+    import ast as _ast
+    grid = []
+    for pos in ATTR_POSITIONS:
+        for x in FORBIDDEN_ATTRS:
+            e = pos.format(X=x)
+            try:
+                _ast.parse(e, mode='eval')
+            except SyntaxError:
+                continue
+            grid.append(e)
+    rc.coverage['forbidden_attribute_grid'] = len(grid)
+    for expr in grid:
+        ctx = dict(safe_builtins())
+        ctx.update({'a': 't'})
+        rc.add('evaluations')
+        rc.add('nontrivial')
+        if is_eval_safe(expr, ctx):
+            rc.violation('expression-reaching-dunder-attributes-accepted', expression=expr)
     for expr in MUST_REJECT:
         ctx = dict(safe_builtins())
         ctx.update({'a': 't'})
